@@ -167,11 +167,53 @@ def run(case, ctx):
 def direct_case(draw, tier="quick"):
     k = draw(st.integers(1, 4))
     lens = draw(st.lists(st.integers(0, 4), min_size=k, max_size=k))
-    form = draw(st.sampled_from(["table_list", "table_dict", "vector_of_vectors", "rshift_chain", "empty_cols"]))
-    return {"lens": lens, "form": form, "typed": draw(st.booleans())}
+    form = draw(st.sampled_from(["table_list", "table_dict", "vector_of_vectors", "rshift_chain", "empty_cols", "zero_row_update", "zero_row_update"]))
+    return {"lens": lens, "form": form, "typed": draw(st.booleans()), "how": draw(st.sampled_from(["dict", "mask", "slice", "typed"])),
+            "update": draw(st.sampled_from(["attr", "attr_indexed", "rshift_dict", "rshift_vec", "lshift_row"])), "m": draw(st.integers(1, 3))}
+
+
+def run_zero_row(case, ctx):
+    """a table with columns but no rows, then an update that would give one column rows"""
+    k = len(case["lens"])
+    names = [f"c{i}" for i in range(k)] if case["update"] != "attr_indexed" or k < 2 else ["c0"] * k
+    how = case["how"]
+    if how == "dict" and len(set(names)) == len(names):
+        t = S.Table({nm: [] for nm in names})
+    elif how == "typed":
+        t = S.Table([S.Vector([], dtype=int, name=nm) for nm in names])
+    else:
+        full = S.Table([S.Vector([1, 2, 3], name=nm) for nm in names])
+        t = full[[False, False, False]] if how == "mask" else full[0:0]
+    if not isinstance(t, S.Table) or check_table(ctx, t, "zero-row"):
+        return
+    vals = list(range(case["m"]))
+    upd = case["update"]
+    ctx.ev()
+    res = t
+    try:
+        if upd == "attr":
+            t.c0 = vals
+        elif upd == "attr_indexed":
+            setattr(t, f"c0__{k - 1}" if k >= 2 else "c0", vals)
+        elif upd == "rshift_dict":
+            res = t >> {"extra": vals}
+        elif upd == "rshift_vec":
+            res = t >> S.Vector(vals, name="extra")
+        else:
+            res = t << list(range(k))          # appending one full row is legitimate
+    except Exception:  # noqa: BLE001
+        ctx.label("rejected")
+        ctx.nontrivial()
+        res = t
+    for obj, nm in ((t, "target"), (res, "result")):
+        if isinstance(obj, S.Table) and check_table(ctx, obj, f"zero-row-{upd}-{nm}"):
+            return
+    ctx.label("empty_table")
 
 
 def run_direct(case, ctx):
+    if case["form"] == "zero_row_update":
+        return run_zero_row(case, ctx)
     lens, form = case["lens"], case["form"]
     ragged = len(set(lens)) > 1
     cols = [(f"c{i}", list(range(n))) for i, n in enumerate(lens)]
